@@ -27,7 +27,7 @@ CHECKS = [
   'technique': 'path-exhaustive symbolic execution of the predictor-corrector loop with the corrector outcome a free solver boolean per call (symbolic fault sequence); contracts discharged by z3 per path',
   'level': 'For every accept/reject sequence of the corrector within the bounds and all symbolic steps, targets and limits: member limit, counters = events, retry budget, predictions (natural and secant), '
            'step halving/clamping with sign, target-interval stop, member/aux/period alignment in the interface.',
-  'note': 'max_members <= 3 (4 thorough), max_retries <= 1 (2 thorough), representation dim 2, parameter dim 1 (2 thorough); corrector/predictor outputs are fresh symbols; non-zero step components within [step_min, step_max] assumed'},
+  'note': 'on_reject also decided for an arbitrary symbolic shrink-policy output; max_members <= 3 (4 thorough), max_retries <= 1 (2 thorough), representation dim 2, parameter dim 1 (2 thorough); corrector/predictor outputs are fresh symbols; non-zero step components within [step_min, step_max] assumed'},
  {'id': 'C15',
   'technique': 'path-exhaustive symbolic execution of detect_on_trajectory and the cubic refinement on symbolic samples; per-path contracts and the Hermite derivative identity discharged by z3',
   'level': 'For all sample values/times within the bounds: detected on-surface and crossing sets equal the specification, alpha in [0,1], each hit on the plane and inside its bracket with time and state '
@@ -43,7 +43,7 @@ CHECKS = [
   'technique': 'symbolic execution of the direction wrapper, the propagator and the real driver loops with kernels/controllers uninterpreted (contracts as solver constraints); per-path obligations discharged by z3',
   'level': 'Directed right-hand side = documented negation for every flip set; returned times = forward * grid for fixed, adaptive and symplectic methods; fixed-step and symplectic drivers chain signed steps on any monotone grid; '
            'adaptive loops (RK45, DOP853, generic and Hamiltonian) never pass the end time, keep h in (0, max_step], advance only when the documented error norm <= 1, return y0 first, and a decreasing grid is rejected.',
-  'note': 'adaptive loops unwound to 2 kernel calls (3 thorough) with state dimension 1; kernels, field, _select_initial_step/_error_scale/_pi_*_factor are uninterpreted with their contracts; accuracy of round trips is C02'},
+  'note': 'backward wrappers for different flip_indices built consecutively on one system (compiled-wrapper cache not cleared); adaptive loops unwound to 2 kernel calls (3 thorough) with state dimension 1; kernels, field, _select_initial_step/_error_scale/_pi_*_factor are uninterpreted with their contracts; accuracy of round trips is C02'},
  {'id': 'C11',
   'technique': 'QF_FP truth tables for the crossing predicates; path-exhaustive symbolic execution (z3) of the bisection refinements and of all event drivers with event function, field, kernels and interpolant uninterpreted',
   'level': 'All float64 pairs: crossing predicates = strict direction-compatible sign change (or exact zero at the step end). Bisection: bracket invariant, halving, exit conditions, hit inside the step on the interpolant. '
@@ -53,7 +53,7 @@ CHECKS = [
   'technique': 'symbolic execution of the Hamiltonian right-hand side and evaluators on a polynomial with symbolic coefficients (z3 residual queries); syntactic/solver equivalence of generic vs Hamiltonian kernels and product-program exploration of the driver twins',
   'level': 'For all coefficient values and states: _hamiltonian_rhs, hamsys.rhs and the dH_dQ/dH_dP evaluators equal (dH/dP, -dH/dQ); each *_ham step kernel equals its generic twin for an arbitrary field; '
            'generic and Hamiltonian drivers (fixed, RK45, DOP853, with and without events) produce identical traces and results on every explored path; integrate() dispatches on the runtime protocol; one compiled-build evaluation of hamsys.rhs.',
-  'note': 'H of degree <= 3 with 13 symbolic coefficients; driver product runs unwound to 2 kernel calls (DOP853: 1 quick, 2 thorough; others 3 thorough), refinement-call arguments compared, in state dimension 1 with shared uninterpreted kernels/helpers; zero-skip guards explored on the generic side'},
+  'note': 'in-step refinement twin: the DOP853 interpolation table of the Hamiltonian copy equals the generic one on symbolic data; H of degree <= 3 with 13 symbolic coefficients; driver product runs unwound to 2 kernel calls (DOP853: 1 quick, 2 thorough; others 3 thorough), refinement-call arguments compared, in state dimension 1 with shared uninterpreted kernels/helpers; zero-skip guards explored on the generic side'},
  {'id': 'C06',
   'technique': 'QF_BV queries on the real packing kernels; symbolic execution of the polynomial kernels on symbolic coefficients against an independent dictionary algebra (normal-form/z3 residuals); symbolic thread ids for the prange kernels (z3 over all assignments)',
   'level': 'Packing: decode(pack(k)) = k for all fields, injective per degree, table = bijection onto the multi-indices (exhaustive to the stated degree). Algebra: add, scale, multiply, power, differentiate, integrate, Poisson bracket, '
